@@ -686,10 +686,22 @@ impl Sim {
             15 => Op::UpdateFees { market: self.rng.below(4) as usize },
             16 => {
                 let market = self.rng.below(4) as usize;
-                let (key, value) = match self.rng.below(4) {
+                // the liquidation threshold is kept at or below the threshold validated after an increase /
+                // decrease (what a sane configuration looks like): with the reverse order a position that passed
+                // validation could be liquidated at once by configuration alone
+                let (cur_cf, cur_liq_cf) = {
+                    use gmsol_model::PerpMarket;
+                    load::<gmsol_store::states::Market>(&self.w.svm, &self.w.markets[market].market)
+                        .and_then(|m| m.position_params().ok())
+                        .map(|p| (*p.min_collateral_factor(), *p.min_collateral_factor_for_liquidation()))
+                        .unwrap_or((UNIT / 100, UNIT / 200))
+                };
+                let (key, value) = match self.rng.below(7) {
                     0 => ("max_pool_amount_for_long_token", self.rng.log_u128(10_000_000 * 1_000_000_000)),
                     1 => ("max_open_interest_for_long", self.rng.log_u128(10_000_000) * UNIT),
-                    2 => ("min_collateral_factor", self.rng.range_u128(1, 5) * UNIT / 100),
+                    2 => ("min_collateral_factor", (self.rng.range_u128(1, 5) * UNIT / 100).max(cur_liq_cf)),
+                    3 | 4 => ("min_collateral_factor_for_liquidation", (cur_cf / 100 * self.rng.range_u128(10, 100)).max(1)),
+                    5 => ("min_collateral_value", self.rng.range_u128(1, 40) * UNIT),
                     _ => ("max_pool_value_for_deposit_for_short_token", self.rng.log_u128(100_000_000) * UNIT),
                 };
                 Op::SetConfig { market, key: key.to_string(), value }
